@@ -16,13 +16,14 @@ import traceback
 
 from engine import flow
 from engine.contracts import Contracts, LibHooks, Layout
-from engine.absval import Int, Ptr, Null, Top, Region, Zero, NULL
+from engine.absval import Int, Ptr, Null, Top, Region, Zero, NULL, Fn
 from engine.lin import Aff, Store, fm_infeasible
 from engine.common import need, AnalysisBroken
 
 STEP_FN = '_advance_parsing'
 CMP_FN = '_cmp_name'
 INTFORM_FN = '_parse_integer'
+CB_STUB = 'verif_token_callback_stub'
 
 
 def cmp_stub(st, args):
@@ -184,6 +185,11 @@ class StepHooks(LibHooks):
 
     def stub_call(self, st, name, args, ins):
         """optional oracle for the name comparison: three outcomes (less / equal / greater), recorded on the path"""
+        if name == CB_STUB:
+            # the token callback: record which token kind it is told about
+            v = args[1]
+            st.tags['cbcalls'] = st.tags.get('cbcalls', ()) + ((st.store.const_of(v.a) if isinstance(v, Int) else None),)
+            return [(st, None)]
         if not (self.K or {}).get('stubcmp'):
             return None
         if name == CMP_FN:
@@ -278,7 +284,7 @@ def build_entry(C, hooks, K):
     put('buffer_size', Int(lay.szw, A_(sym['k:bs'])))
     put('buffer', Ptr('BUF', Aff(0)))
     put('state', Ptr('STATE', Aff(0)))
-    put('cb', NULL)
+    put('cb', Fn(CB_STUB) if K.get('cbstub') else NULL)
     put('cb_context', NULL)
     put('error_flags', Int(32, Aff(0)))
     put('buffer_used', Int(lay.szw, A_(sym['k:u'])))
@@ -424,6 +430,7 @@ def outcome(C, hooks, st, kind, ret, phi_sf):
     rec['eff'] = sorted(eff.items(), key=repr)
     rec['sig'] = _norm_sig(st.tags.get('sig', ()))
     rec['cmps'] = st.tags.get('cmps', ())
+    rec['cbcalls'] = st.tags.get('cbcalls', ())
     # path condition over the loop-head symbols
     ivl = {}
     for s_, o in names.items():
